@@ -1,5 +1,6 @@
 //! Deterministic simulation harness for `may` (see /verif/DESIGN.md)
 
+pub mod alloc;
 pub mod engine;
 pub mod json;
 pub mod oracle;
@@ -29,6 +30,8 @@ pub fn panic_msg(p: &Box<dyn Any + Send>) -> String {
 /// knobs of the swarm: which strategies and fault kinds a scenario family wants
 #[derive(Clone, Debug)]
 pub struct Swarm {
+    /// draw an allocator fault mode (LIFO reuse / poison) for some runs
+    pub alloc_modes: bool,
     pub stalls: bool,
     pub stall_max_ns: u64,
     pub cas_weak: bool,
@@ -40,6 +43,7 @@ pub struct Swarm {
 impl Default for Swarm {
     fn default() -> Self {
         Swarm {
+            alloc_modes: false,
             stalls: false,
             stall_max_ns: 2_000_000,
             cas_weak: true,
@@ -75,6 +79,13 @@ pub fn swarm_cfg(seed: u64, sw: &Swarm) -> Cfg {
         c.stall_max_ns = sw.stall_max_ns;
         // a stalled thread resumes although others spin on it
         c.tick_ns = 25;
+    }
+    if sw.alloc_modes {
+        c.alloc_mode = match r.below(10) {
+            0..=3 => 1,
+            4..=6 => 2,
+            _ => 0,
+        };
     }
     if sw.spurious_park && r.chance(1, 3) {
         c.spurious_park_pm = *r.pick(&[20, 100]);
